@@ -4,3 +4,5 @@ import TV.Properties.C06
 #print axioms TV.C06.C06_buffer_holds_sent
 #print axioms TV.C06.C06_delivered_if_room
 #print axioms TV.C06.C06_publish_reaches_every_subscriber
+#print axioms TV.C06.C06_model_passes_monitor_deliveries
+#print axioms TV.C06.C06_model_passes_monitor_ledger
